@@ -355,8 +355,25 @@ pub open spec fn replaced_at(old: Tree, new: Tree, pos: int, key: Seq<char>, e: 
     &&& 0 <= pos < ch.len() && ch[pos] is Node && rowan::tree_kind(ch[pos]) == ENTRY && t_key(ch[pos]) == Some(key)
     &&& new == node(rowan::tree_kind(old), ch.take(pos) + seq![e] + ch.skip(pos + 1))
 }
+/// what may be put in front of an appended entry: nothing, or one NEWLINE token (when the last line was unterminated)
+pub open spec fn nl_ok(nl: Seq<Tree>) -> bool {
+    nl.len() <= 1 && forall|i: int| 0 <= i < nl.len() ==> #[trigger] nl[i] == leaf((NEWLINE, nlc()))
+}
+/// new is old with `nl` and the entry e appended; every existing child is unchanged
+pub open spec fn appended_with(old: Tree, new: Tree, nl: Seq<Tree>, e: Tree) -> bool {
+    nl_ok(nl) && new == node(rowan::tree_kind(old), rowan::tree_children(old) + nl + seq![e])
+}
 /// every child other than the touched entry is unchanged (hence every byte outside that field)
 pub open spec fn set_frame(old: Tree, new: Tree, key: Seq<char>, e: Tree) -> bool {
     if first_idx(t_items(old), key) >= 0 { exists|pos: int| replaced_at(old, new, pos, key, e) }
-    else { new == node(rowan::tree_kind(old), rowan::tree_children(old) + seq![e]) }
+    else { exists|nl: Seq<Tree>| #[trigger] appended_with(old, new, nl, e) }
+}
+/// token children do not show in the entry list
+pub proof fn lemma_append_toks(ch: Seq<Tree>, ts: Seq<Tree>)
+    requires all_toks(ts)
+    ensures ch_entries(ch + ts) == ch_entries(ch), ch_items(ch + ts) == ch_items(ch)
+{
+    lemma_child_nodes_add(ch, ts);
+    lemma_child_nodes_of_toks(ts);
+    assert(rowan::child_nodes(ch) + Seq::<Tree>::empty() =~= rowan::child_nodes(ch));
 }
